@@ -26,21 +26,23 @@ partial def collect (env : Environment) (c : Name) : StateM St Unit := do
 
 def main (args : List String) : IO UInt32 := do
   initSearchPath (← findSysroot)
-  let some m := args.head? | do IO.eprintln "usage: Audit <Module>"; return 2
-  let mod := m.toName
-  let env ← importModules #[{module := mod}] {} (trustLevel := 1024)
-  let some idx := env.getModuleIdx? mod | do IO.eprintln s!"module {mod} not found"; return 2
-  let mut names : Array Name := #[]
-  for (c, ci) in env.constants.map₁.toList do
-    if env.getModuleIdxFor? c == some idx then
-      match ci with
-      | .thmInfo _ => if !c.isInternal then names := names.push c
-      | _ => pure ()
+  if args.isEmpty then do IO.eprintln "usage: Audit <Module>…"; return 2
+  let mods := args.map String.toName
+  let env ← importModules (mods.toArray.map fun m => {module := m}) {} (trustLevel := 1024)
   let mut n := 0
-  for c in names.qsort (fun a b => a.toString < b.toString) do
-    let (_, s) := (collect env c).run {}
-    let axs := s.axioms.toArray.qsort (fun a b => a.toString < b.toString)
-    IO.println s!"THM {c} {" ".intercalate (axs.toList.map toString)}"
-    n := n + 1
+  for mod in mods do
+    let some idx := env.getModuleIdx? mod | do IO.eprintln s!"module {mod} not found"; return 2
+    let mut names : Array Name := #[]
+    for (c, ci) in env.constants.map₁.toList do
+      if env.getModuleIdxFor? c == some idx then
+        match ci with
+        | .thmInfo _ => if !c.isInternal then names := names.push c
+        | _ => pure ()
+    IO.println s!"MODULE {mod} {names.size}"
+    for c in names.qsort (fun a b => a.toString < b.toString) do
+      let (_, s) := (collect env c).run {}
+      let axs := s.axioms.toArray.qsort (fun a b => a.toString < b.toString)
+      IO.println s!"THM {c} {" ".intercalate (axs.toList.map toString)}"
+      n := n + 1
   IO.println s!"AUDITED {n}"
   return 0
